@@ -4,6 +4,7 @@ import (
 	"fmt"
 	"go/types"
 	"os"
+	"regexp"
 	"sort"
 	"strings"
 	"sync"
@@ -181,12 +182,50 @@ func (e *Engine) checkPost(o outcome) {
 	}
 }
 
+var reSf = regexp.MustCompile(`sf![A-Za-z0-9_]+`)
+
 // assemble builds the full SMT text of a query.
 func (e *Engine) assemble(q *Query, negGoal bool) string {
 	var b strings.Builder
 	for _, l := range e.globalDecls {
 		b.WriteString(l)
 		b.WriteByte('\n')
+	}
+	// declared spec functions and their defining axioms: only those the query mentions (a quantified
+	// axiom in every query would keep the solvers from answering sat/unsat quickly)
+	if e.C != nil {
+		body := strings.Join(q.Lines, "\n") + "\n" + q.Goal + "\n" + strings.Join(e.globalDecls, "\n")
+		used := map[string]bool{}
+		var axioms []string
+		for _, ax := range e.C.SMT {
+			syms := reSf.FindAllString(ax, -1)
+			hit := false
+			for _, sy := range syms {
+				if strings.Contains(body, sy) {
+					hit = true
+				}
+			}
+			if hit {
+				axioms = append(axioms, ax)
+				for _, sy := range syms {
+					used[strings.TrimPrefix(sy, "sf!")] = true
+				}
+			}
+		}
+		var names []string
+		for n := range e.C.SpecFns {
+			if used[n] || strings.Contains(body, "sf!"+n) {
+				names = append(names, n)
+			}
+		}
+		sort.Strings(names)
+		for _, n := range names {
+			sf := e.C.SpecFns[n]
+			b.WriteString(fmt.Sprintf("(declare-fun sf!%s (%s) %s)\n", n, strings.Join(sf.Args, " "), sf.Res))
+		}
+		for _, ax := range axioms {
+			b.WriteString(ax + "\n")
+		}
 	}
 	if d := e.strDistinct(); d != "" {
 		b.WriteString(d)
